@@ -275,6 +275,16 @@ unsafe impl<P: Pad> Trace for Node<P> {
         }
         let mut reported = 0usize;
         {
+            // the collector's own code (CcBox::trace) may panic under this callback: close the callback in the log then
+            struct Unwound(u32);
+            impl Drop for Unwound {
+                fn drop(&mut self) {
+                    if std::thread::panicking() {
+                        emit(json!({"e": "cbx", "cb": "trace", "o": self.0, "panic": true, "crate": true}));
+                    }
+                }
+            }
+            let _unwound = Unwound(o);
             let slots = self.slots.borrow();
             for s in slots.iter() {
                 if let Some(cc) = &s.inner {
